@@ -209,4 +209,149 @@ HasTypename(C, sels, i) ==
        \/ HasTypename(C, sels, i + 1)
 TriggerOmittedVarRuleError(C) == RuleError([C EXCEPT !.dev = {}]) \/ RuleError([C EXCEPT !.dev = {"DevSpreadNoTypePush"}])
 TriggerTypenameNotCounted(C) == \E j \in OpIdx(C) : HasTypename(C, C.doc.ops[j].sels, 1)
+----------------------------------------------------------------------------
+(***************************************************************************)
+(* C11 -- work of the pre-execution checks.                                *)
+(*                                                                         *)
+(* The walkers of the request path, as recursive work functions:           *)
+(*   sel  calls of visit_selection  \ validation/visitor.rs: one Normal-mode *)
+(*   fld  calls of visit_field      / pass over every definition as written  *)
+(*        (rules), one Inline-mode pass over the operations in which a       *)
+(*        spread is followed into the fragment (depth, complexity, cache)    *)
+(*   rd   selection sets entered by check_recursive_depth (schema.rs)        *)
+(*   md   selection sets entered by check_max_directives  (schema.rs)        *)
+(*   fc   calls of FindConflicts::find (rules/overlapping_fields_can_be_     *)
+(*        merged.rs): one search per selection set as written, a fragment    *)
+(*        is entered once per search (its `visited` set)                     *)
+(*                                                                         *)
+(* Walk(C, sels, i, tbl) is the work below the selections sels[i..] when a   *)
+(* spread is followed.  tbl : fragment name -> work record says what a       *)
+(* spread of that fragment costs; a fragment that is not in tbl is walked    *)
+(* again -- so                                                               *)
+(*   Walk(.., EmptyTbl)  is the code as written (DevNoMemo: no memoisation,  *)
+(*                       a fragment is re-visited once per spread),          *)
+(*   Walk(.., ZeroTbl)   does not follow spreads (a definition as written),  *)
+(*   Walk(.., CostTbl)   equals Walk(.., EmptyTbl) (checked in mode M) but   *)
+(*                       is evaluated in polynomial time: the table holds    *)
+(*                       the work of every fragment, built bottom-up.        *)
+(***************************************************************************)
+Work(sel, fld, rd, md, spr) == [sel |-> sel, fld |-> fld, rd |-> rd, md |-> md, spr |-> spr]
+ZeroWork == Work(0, 0, 0, 0, 0)
+AddWork(a, b) == Work(a.sel + b.sel, a.fld + b.fld, a.rd + b.rd, a.md + b.md, a.spr + b.spr)
+
+RECURSIVE Walk(_, _, _, _)
+Walk(C, sels, i, tbl) ==
+  IF i > Len(sels) THEN ZeroWork
+  ELSE LET s == sels[i]
+           here ==
+             IF s.k = "field" THEN
+               LET sub == Walk(C, s.sels, 1, tbl) IN
+               Work(1 + sub.sel,
+                    (IF IsTypename(s) THEN 0 ELSE 1) + sub.fld,           \* visit_field is not called for __typename
+                    IF s.sels = <<>> THEN 0 ELSE 1 + sub.rd,                \* check_recursive_depth skips empty sets
+                    1 + sub.md,                                            \* check_max_directives enters every field's set
+                    sub.spr)
+             ELSE IF s.k = "inline" THEN
+               LET sub == Walk(C, s.sels, 1, tbl) IN Work(1 + sub.sel, sub.fld, 1 + sub.rd, 1 + sub.md, sub.spr)
+             ELSE IF ~HasFrag(C, s.name) THEN Work(1, 0, 0, 0, 0)
+             ELSE LET body == IF s.name \in DOMAIN tbl THEN tbl[s.name] ELSE Walk(C, Frag(C, s.name).sels, 1, tbl)
+                  IN Work(1 + body.sel, body.fld, 1 + body.rd, 1 + body.md, 1 + body.spr)
+       IN AddWork(here, Walk(C, sels, i + 1, tbl))
+
+EmptyTbl == <<>>                                    \* DOMAIN = {} : nothing is remembered
+FragNames(C) == {C.doc.frags[i].name : i \in 1..Len(C.doc.frags)}
+ZeroTbl(C) == [n \in FragNames(C) |-> ZeroWork]
+
+\* names of the fragments spread directly in a selection list (as written)
+RECURSIVE SpreadNames(_, _)
+SpreadNames(sels, i) ==
+  IF i > Len(sels) THEN {}
+  ELSE (IF sels[i].k = "spread" THEN {sels[i].name} ELSE SpreadNames(sels[i].sels, 1)) \cup SpreadNames(sels, i + 1)
+\* work of every fragment, bottom-up: a fragment is added once all fragments it spreads are in the table
+\* (unknown names count as resolved; fragments on a cycle never enter the table)
+RECURSIVE CostTblFrom(_, _, _)
+CostTblFrom(C, tbl, fuel) ==
+  LET ready == {n \in FragNames(C) \ DOMAIN tbl : (SpreadNames(Frag(C, n).sels, 1) \cap FragNames(C)) \subseteq DOMAIN tbl} IN
+  IF fuel = 0 \/ ready = {} THEN tbl
+  ELSE CostTblFrom(C, [n \in DOMAIN tbl \cup ready |-> IF n \in DOMAIN tbl THEN tbl[n] ELSE Walk(C, Frag(C, n).sels, 1, tbl)], fuel - 1)
+CostTbl(C) == CostTblFrom(C, EmptyTbl, Len(C.doc.frags))
+
+\* FindConflicts: one search from a selection set; [n: calls of find, v: fragments visited so far]
+RECURSIVE Find(_, _, _, _)
+Find(C, sels, i, st) ==
+  IF i > Len(sels) THEN st
+  ELSE LET s == sels[i]
+           st1 == IF s.k = "field" THEN st
+                  ELSE IF s.k = "inline" THEN Find(C, s.sels, 1, [st EXCEPT !.n = @ + 1])
+                  ELSE IF ~HasFrag(C, s.name) \/ s.name \in st.v THEN st
+                  ELSE Find(C, Frag(C, s.name).sels, 1, [n |-> st.n + 1, v |-> st.v \cup {s.name}])
+       IN Find(C, sels, i + 1, st1)
+\* all searches of the Normal-mode pass: one per non-empty selection set as written
+RECURSIVE FindAll(_, _)
+FindAllIn(C, sels) == IF sels = <<>> THEN 0 ELSE Find(C, sels, 1, [n |-> 1, v |-> {}]).n + FindAll(C, <<sels, 1>>)
+FindAll(C, p) ==
+  LET sels == p[1] i == p[2] IN
+  IF i > Len(sels) THEN 0
+  ELSE (IF sels[i].k = "spread" THEN 0 ELSE FindAllIn(C, sels[i].sels)) + FindAll(C, <<sels, i + 1>>)
+
+Defs(C) == [j \in 1..(Len(C.doc.ops) + Len(C.doc.frags)) |->
+              IF j <= Len(C.doc.ops) THEN C.doc.ops[j].sels ELSE C.doc.frags[j - Len(C.doc.ops)].sels]
+RECURSIVE SumWork(_, _, _, _), SumFind(_, _, _)
+SumWork(C, lists, j, tbl) == IF j > Len(lists) THEN ZeroWork ELSE AddWork(Walk(C, lists[j], 1, tbl), SumWork(C, lists, j + 1, tbl))
+SumFind(C, lists, j) == IF j > Len(lists) THEN 0 ELSE FindAllIn(C, lists[j]) + SumFind(C, lists, j + 1)
+OpLists(C) == [j \in 1..Len(C.doc.ops) |-> C.doc.ops[j].sels]
+
+\* size of the document: its definitions and selection nodes as written
+Size(C) == Len(Defs(C)) + SumWork(C, Defs(C), 1, ZeroTbl(C)).sel
+PolyK == 4
+PolyBound(C) == PolyK * Size(C) * Size(C)
+
+(* Work of one request under ValidationMode::Strict with limit_directives configured, as           *)
+(* <<visit_selection, visit_field, recursive_depth, max_directives, find_conflicts>>.               *)
+(* tbl = EmptyTbl / CostTbl(C): the code as written (DevNoMemo); tbl = ZeroTbl(C) plus every        *)
+(* fragment body once: the memoised ideal.                                                          *)
+VisitsWith(C, tbl, fragsOnce) ==
+  LET written == SumWork(C, Defs(C), 1, ZeroTbl(C))                      \* Normal-mode pass: every definition as written
+      inl     == SumWork(C, OpLists(C), 1, tbl)                          \* Inline-mode pass / the two schema.rs walkers
+      extra   == IF fragsOnce THEN SumWork(C, [j \in 1..Len(C.doc.frags) |-> C.doc.frags[j].sels], 1, ZeroTbl(C)) ELSE ZeroWork
+      nfr     == IF fragsOnce THEN Len(C.doc.frags) ELSE 0
+  IN <<written.sel + inl.sel + extra.sel,
+       written.fld + inl.fld + extra.fld,
+       Len(C.doc.ops) + inl.rd + nfr + extra.rd,
+       Len(C.doc.ops) + inl.md + nfr + extra.md,
+       SumFind(C, Defs(C), 1)>>
+Visits_asCoded(C)     == VisitsWith(C, EmptyTbl, FALSE)        \* the definition (exponential to evaluate on fan-out chains)
+Visits_asCodedFast(C) == VisitsWith(C, CostTbl(C), FALSE)      \* the same numbers through the cost table
+Visits_ideal(C)       == VisitsWith(C, ZeroTbl(C), TRUE)       \* every fragment body is walked once per walker
+
+WithinBound(v, b) == \A i \in 1..Len(v) : v[i] <= b
+\* trigger of DevNoMemo: some fragment is expanded more than once when the operations are walked
+\* ("a fragment is spread at least twice along a chain")
+TriggerNoMemo(C) == SumWork(C, OpLists(C), 1, CostTbl(C)).spr > Len(C.doc.frags)
+
+----------------------------------------------------------------------------
+(* Adversarial families (mode M and the harness run the same documents).    *)
+Fld(name, alias, sels) == [k |-> "field", name |-> name, alias |-> alias, args |-> <<>>, dirs |-> <<>>, sels |-> sels]
+Inl(on, sels) == [k |-> "inline", on |-> on, dirs |-> <<>>, sels |-> sels]
+Spr(name) == [k |-> "spread", name |-> name, dirs |-> <<>>]
+Op(name, sels) == [name |-> name, ty |-> "query", vars |-> <<>>, dirs |-> <<>>, sels |-> sels]
+FragDef(name, on, sels) == [name |-> name, on |-> on, dirs |-> <<>>, sels |-> sels]
+FN(i) == "f" \o ToString(i)
+\* fragment f_i on Query { ...f_{i+1} ...f_{i+1} }, f_n { n }: 2^(n-1) expansions of f_n from { ...f1 }
+FanOut(n) == [ops |-> <<Op("", <<Spr(FN(1))>>)>>,
+              frags |-> [i \in 1..n |-> FragDef(FN(i), "Query", IF i < n THEN <<Spr(FN(i + 1)), Spr(FN(i + 1))>> ELSE <<Fld("n", "", <<>>)>>)]]
+\* n aliased fields, repeated in n inline fragments: wide overlapping selections
+Wide(n) == LET row == [i \in 1..n |-> Fld("n", "x" \o ToString(i), <<>>)] IN
+           [ops |-> <<Op("", row \o [i \in 1..n |-> Inl("Query", row)])>>, frags |-> <<>>]
+\* n inline fragments nested in each other
+RECURSIVE Nest(_)
+Nest(n) == IF n = 0 THEN <<Fld("n", "", <<>>)>> ELSE <<Inl("", Nest(n - 1))>>
+DeepInline(n) == [ops |-> <<Op("", Nest(n))>>, frags |-> <<>>]
+\* n operations spreading one fragment of n fields
+ManyOps(n) == [ops |-> [i \in 1..n |-> Op("Q" \o ToString(i), <<Spr("f1")>>)],
+               frags |-> <<FragDef("f1", "Query", [i \in 1..n |-> Fld("n", "x" \o ToString(i), <<>>)])>>]
+Families == {"fanout", "wide", "deepinline", "manyops"}
+Family(name, n) == CASE name = "fanout" -> FanOut(n) [] name = "wide" -> Wide(n) [] name = "deepinline" -> DeepInline(n) [] name = "manyops" -> ManyOps(n)
+\* a context for work counting needs only the document
+WorkCtx(doc) == [doc |-> doc, op |-> doc.ops[1]]
 =============================================================================
